@@ -428,6 +428,32 @@ def oracle(case, outdir, result, topo_cap=3000, rng=None):
         else:
           bad.append(("imports-entry-not-ordered", "step %d (%s) reads %r produced by step %s which is not a declared "
                       "(transitive) dependency" % (i, s["out"], p, ps)))
+  # completeness: the imports map has an entry for every direct dependency, and a second-pass statement of
+  # an import cycle has one for every member of the cycle (the first-pass outputs feed the second pass)
+  pr = S["pr"]
+  mods = real_modules(case)
+  where = {}
+  for g, d in case["groups"]:
+    for i in g:
+      where[mods[i].full_path] = (g, d)
+  for i, s in enumerate(steps):
+    if s["imports"] is None or s["input"] not in where:
+      continue
+    g, d = where[s["input"]]
+    need = list(d)
+    if len(g) != 1 and not s["out"].endswith("-1"):
+      need += list(g)
+    have = {k for k, _ in s["imports"]}
+    for j in need:
+      k = pr._module_to_output_path(mods[j])   # pylint: disable=protected-access
+      if k not in have:
+        if any(t["impfile"] == s["impfile"] for jj, t in enumerate(steps) if jj != i):
+          bad.append(("imports-file-overwritten:module-name-collision",
+                      "step %d (%s) shares its imports file %r with another statement and lost its entry for %r"
+                      % (i, s["out"], s["impfile"], k)))
+          break
+        bad.append(("imports-entry-missing", "step %d (%s) has no imports entry for its dependency %r" % (i, s["out"], k)))
+        break
   # every requested analysable file is checked exactly once
   for f in case["req"]:
     for t in full.get(f, []):
@@ -532,25 +558,33 @@ def ninja_view(outdir, steps):
   if rc != 0:
     return {"error": (out + err).strip()}
   targets = [l for l in out.split("\n") if l]
-  view = {"targets": targets, "edges": []}
+  view = {"targets": targets, "edges": [], "cmds": []}
+  if not steps:
+    return view
+  rc, out, err = ninja(["-t", "query"] + [s["out"] for s in steps], d)
+  if rc != 0:
+    view["edges"] = [{"error": (out + err).strip()}]
+    return view
+  lines = out.split("\n")
+  k = 0
   for s in steps:
-    o = s["out"]
-    rc, out, err = ninja(["-t", "query", o], d)
-    if rc != 0:
-      view["edges"].append({"error": (out + err).strip()}); continue
-    lines = out.split("\n")
-    assert lines[0] == o + ":", (lines[0], o)
-    rule = lines[1].strip().split(": ", 1)[1]
+    if k >= len(lines) or lines[k] != s["out"] + ":":
+      view["edges"].append({"error": "query output out of step at %r" % (lines[k:k + 2],)}); break
+    rule = lines[k + 1].strip().split(": ", 1)[1] if lines[k + 1].startswith("  input: ") else None
+    k += 2 if rule is not None else 1
     ins, imps = [], []
-    for l in lines[2:]:
-      if l.startswith("  outputs:"):
-        break
-      l = l[4:]
+    while k < len(lines) and lines[k].startswith("    "):
+      l = lines[k][4:]
       if l.startswith("| "):
         imps.append(l[2:])
       else:
         ins.append(l)
-    rc, out, err = ninja(["-t", "commands", "-s", o], d)
-    cmd = out.rstrip("\n")
-    view["edges"].append({"rule": rule, "ins": ins, "implicit": imps, "cmd": cmd})
+      k += 1
+    if k < len(lines) and lines[k].startswith("  outputs:"):
+      k += 1
+      while k < len(lines) and lines[k].startswith("    "):
+        k += 1
+    view["edges"].append({"rule": rule, "ins": ins, "implicit": imps})
+  rc, out, err = ninja(["-t", "commands"], d)
+  view["cmds"] = sorted(l for l in out.split("\n") if l) if rc == 0 else ["error: " + (out + err).strip()]
   return view
